@@ -48,10 +48,12 @@ static void do_send(int v) {
   if (ch == 0 || ch == 1) fiber_bounded_channel_send(bc, (void*)(intptr_t)v);
   else if (ch == 2) {
     fiber_unbounded_channel_message_t* m = malloc(sizeof *m);
+    fmc_focus(m, sizeof *m);  // the link fields of the queue nodes belong to the channel
     m->data = (void*)(intptr_t)v;
     fiber_unbounded_channel_send(&uc, m);
   } else if (ch == 3) {
     fiber_unbounded_sp_channel_message_t* m = malloc(sizeof *m);
+    fmc_focus(m, sizeof *m);
     m->data = (void*)(intptr_t)v;
     fiber_unbounded_sp_channel_send(&usc, m);
   } else fiber_multi_channel_send(mc, (void*)(intptr_t)v);
@@ -179,8 +181,8 @@ int harness_main(void) {
   if (ch == 0) bc = fiber_bounded_channel_create(1, &sig);
   if (ch == 1) bc = fiber_bounded_channel_create(1, 0);
   if (bc) fmc_focus(bc, sizeof *bc + 2 * sizeof(void*));
-  if (ch == 2) fiber_unbounded_channel_init(&uc, &sig);
-  if (ch == 3) fiber_unbounded_sp_channel_init(&usc, &sig);
+  if (ch == 2) { fiber_unbounded_channel_init(&uc, &sig); fmc_focus(uc.queue.tail, sizeof(mpsc_fifo_node_t)); }
+  if (ch == 3) { fiber_unbounded_sp_channel_init(&usc, &sig); fmc_focus(usc.queue.tail, sizeof(spsc_node_t)); }
   if (ch == 4) { mc = fiber_multi_channel_create(1); g_single_receiver = plan[shape][3] == 0; fmc_focus(mc, sizeof *mc + 2 * sizeof(void*)); }
   fmc_begin();
   if (ch >= 5) {
